@@ -13,4 +13,12 @@ def cpRestoredBeforeTasks : Bool := true
 def preBeforeSpawn : Bool := true
 def postAfterDone : Bool := true
 def firstTaskInline : Bool := true
+/-- the top-level resume branch of `runner.run` (checkpoint from the store) -/
+def topResume : EinoV.C11.ResumeFacts :=
+  { saves := true, restoresFirst := true, setAlways := true, oneHolder := true }
+/-- the sub-graph resume branch of `runner.run` (checkpoint handed down by the parent) -/
+def subResume : EinoV.C11.ResumeFacts :=
+  { saves := true, restoresFirst := true, setAlways := true, oneHolder := true }
+/-- `internalState{…}` literals in package compose: `runCtx` + one per resume branch -/
+def holderAllocSites : Nat := 3
 end EinoV.Expected.C11
